@@ -30,9 +30,12 @@ def boolOf (red x : String) : String :=
 
 namespace sum
 def model (s : Shape) : Option Shape := if s.length = 0 then some s else reduceOp s [] false
-def term (r : Nat) : String :=
-  if r = 0 then tOp "Identity" ["x0"]
-  else tOp "ReduceSum" ["x0"] [("keepdims", "0"), ("noop_with_empty_axes", "0")]
+/-- `dtype` given (`cast` = ONNX dtype code) → the INPUT is cast before reducing (fix 309482c; the result was cast before that). -/
+def castIn (cast : Option Nat) : String :=
+  match cast with | some d => tOp "Cast" ["x0"] [("to", toString d)] | none => "x0"
+def term (r : Nat) (cast : Option Nat := none) : String :=
+  if r = 0 then tOp "Identity" [castIn cast]
+  else tOp "ReduceSum" [castIn cast] [("keepdims", "0"), ("noop_with_empty_axes", "0")]
 def spec (_ : Shape) : Option Shape := some []
 end sum
 
@@ -43,11 +46,12 @@ def model (s : Shape) (dims : Option (List Int)) (keep : Bool) : Option Shape :=
   else match dims with
     | none => reduceOp s [] keep
     | some ds => reduceOp s ds keep
-def term (r : Nat) (dims : Option (List Int)) (keep : Bool) : String :=
-  if r = 0 then tOp "Identity" ["x0"]
+def term (r : Nat) (dims : Option (List Int)) (keep : Bool) (cast : Option Nat := none) : String :=
+  let x := sum.castIn cast
+  if r = 0 then tOp "Identity" [x]
   else match dims with
-    | none => tOp "ReduceSum" ["x0"] [("keepdims", tB keep), ("noop_with_empty_axes", "0")]
-    | some ds => tOp "ReduceSum" ["x0", tInts ds] [("keepdims", tB keep), ("noop_with_empty_axes", "0")]
+    | none => tOp "ReduceSum" [x] [("keepdims", tB keep), ("noop_with_empty_axes", "0")]
+    | some ds => tOp "ReduceSum" [x, tInts ds] [("keepdims", tB keep), ("noop_with_empty_axes", "0")]
 def spec (s : Shape) (dims : Option (List Int)) (keep : Bool) : Option Shape :=
   torchReduce s (dims.getD []) keep
 end sum_dim
@@ -55,9 +59,10 @@ end sum_dim
 namespace mean_dim
 def model (s : Shape) (dims : List Int) (keep : Bool) : Option Shape :=
   if s.length = 0 then some s else reduceOp s dims keep
-def term (r : Nat) (dims : List Int) (keep : Bool) : String :=
-  if r = 0 then "x0"
-  else tOp "ReduceMean" ["x0", tOp "Reshape" [tInts dims, "[-1]"] [("allowzero", "0")]]
+def term (r : Nat) (dims : List Int) (keep : Bool) (cast : Option Nat := none) : String :=
+  let x := sum.castIn cast
+  if r = 0 then x
+  else tOp "ReduceMean" [x, tOp "Reshape" [tInts dims, "[-1]"] [("allowzero", "0")]]
     [("keepdims", tB keep), ("noop_with_empty_axes", "0")]
 def spec (s : Shape) (dims : List Int) (keep : Bool) : Option Shape := torchReduce s dims keep
 end mean_dim
@@ -173,9 +178,12 @@ end argmax
 
 namespace prod
 def model (s : Shape) : Option Shape := reduceOp s [] false
-/-- integer inputs are first cast to INT64. -/
-def term (isInt : Bool) : String :=
-  tOp "ReduceProd" [if isInt then tOp "Cast" ["x0"] [("to", "7")] else "x0"] [("keepdims", "0"), ("noop_with_empty_axes", "0")]
+/-- `dtype` given → the input is cast to it first; otherwise integer inputs are first cast to INT64. -/
+def term (isInt : Bool) (cast : Option Nat := none) : String :=
+  let x := match cast with
+    | some d => tOp "Cast" ["x0"] [("to", toString d)]
+    | none => if isInt then tOp "Cast" ["x0"] [("to", "7")] else "x0"
+  tOp "ReduceProd" [x] [("keepdims", "0"), ("noop_with_empty_axes", "0")]
 def spec (_ : Shape) : Option Shape := some []
 end prod
 
@@ -183,9 +191,10 @@ namespace prod_dim
 /-- fix f89de7f: a 0-d input returns `Identity(self)` (ONNX rejects every axis for rank 0). -/
 def model (s : Shape) (dim : Int) (keep : Bool) : Option Shape :=
   if s.length = 0 then some s else reduceOp s [dim] keep
-def term (r : Nat) (dim : Int) (keep : Bool) : String :=
-  if r = 0 then tOp "Identity" ["x0"]
-  else tOp "ReduceProd" ["x0", tInts [dim]] [("keepdims", tB keep), ("noop_with_empty_axes", "0")]
+def term (r : Nat) (dim : Int) (keep : Bool) (cast : Option Nat := none) : String :=
+  let x := match cast with | some d => tOp "Cast" ["x0"] [("to", toString d)] | none => "x0"
+  if r = 0 then tOp "Identity" [x]
+  else tOp "ReduceProd" [x, tInts [dim]] [("keepdims", tB keep), ("noop_with_empty_axes", "0")]
 def spec (s : Shape) (dim : Int) (keep : Bool) : Option Shape := torchReduce s [dim] keep
 end prod_dim
 
